@@ -6,6 +6,7 @@ package main
 import (
 	"bytes"
 	"fmt"
+	"google.golang.org/protobuf/runtime/protoiface"
 	"strings"
 
 	"github.com/cosmos/cosmos-proto/internal/verifh/vreg"
@@ -246,6 +247,69 @@ func nilPass(b *tbuf, t *Target, gt *getterTable) {
 				bs, err := proto.MarshalOptions{Deterministic: det}.Marshal(iface)
 				if err != nil || len(bs) != 0 {
 					return fmt.Sprintf("Marshal = %x, %v", bs, err)
+				}
+			}
+			return ""
+		})
+		check("proto.MarshalAppend", func() string {
+			// appending the (empty) encoding of a nil message leaves the caller's buffer as it is
+			for _, det := range []bool{false, true} {
+				for _, spare := range []int{0, 32} {
+					pre := make([]byte, 5, 5+spare)
+					copy(pre, []byte{0x0a, 0x03, 'a', 'b', 'c'})
+					got, err := proto.MarshalOptions{Deterministic: det}.MarshalAppend(pre, iface)
+					if err != nil || !bytes.Equal(got, []byte{0x0a, 0x03, 'a', 'b', 'c'}) {
+						return fmt.Sprintf("MarshalAppend(prefix 0a03616263, spare capacity %d) = %x, %v", spare, got, err)
+					}
+					out, err := proto.MarshalOptions{Deterministic: det}.MarshalState(protoiface.MarshalInput{Message: nm, Buf: pre})
+					if err != nil || !bytes.Equal(out.Buf, []byte{0x0a, 0x03, 'a', 'b', 'c'}) {
+						return fmt.Sprintf("MarshalState(Buf 0a03616263) returned Buf %x, %v", out.Buf, err)
+					}
+				}
+			}
+			return ""
+		})
+		check("inside-generic-parent", func() string {
+			// the nil message as list element / map value of a parent that is NOT generated code (dynamicpb): the
+			// reflective encoder of protobuf-go reaches it through ProtoMethods with a non-empty buffer
+			for _, pd := range parentsOf(t.Desc, md) {
+				for i := 0; i < pd.Fields().Len(); i++ {
+					fd := pd.Fields().Get(i)
+					if fd.Message() == nil || (!fd.IsList() && !fd.IsMap()) {
+						continue
+					}
+					vd := fd
+					if fd.IsMap() {
+						vd = fd.MapValue()
+					}
+					if vd.Message() == nil || vd.Message().FullName() != md.FullName() {
+						continue
+					}
+					mk := func(child protoreflect.Message) (bs []byte, err error, pm string) {
+						_, pm = guard(func() {
+							parent := dynamicpb.NewMessage(pd)
+							// something in front of the child, so that the encoder's buffer is not empty when it gets there
+							parent.SetUnknown(protoreflect.RawFields{0x08, 0x01})
+							if fd.IsList() {
+								parent.Mutable(fd).List().Append(protoreflect.ValueOfMessage(child))
+							} else {
+								parent.Mutable(fd).Map().Set(zeroKey(fd.MapKey()), protoreflect.ValueOfMessage(child))
+							}
+							bs, err = proto.MarshalOptions{Deterministic: true}.Marshal(parent)
+						})
+						return
+					}
+					want, werr, wpm := mk(refNil)
+					if wpm != "" || werr != nil {
+						continue // the reference itself does not accept this construction
+					}
+					got, gerr, gpm := mk(nm)
+					if gpm != "" {
+						return fmt.Sprintf("as %s of a dynamicpb %s: proto.Marshal panicked: %s", fd.Name(), pd.FullName(), firstLine(gpm))
+					}
+					if gerr != nil || !bytes.Equal(got, want) {
+						return fmt.Sprintf("as %s of a dynamicpb %s: Marshal = %x, %v; with a reference nil child %x", fd.Name(), pd.FullName(), got, gerr, want)
+					}
 				}
 			}
 			return ""
@@ -557,4 +621,46 @@ func typedNilWrapperGetter(b *tbuf, t *Target, gt *getterTable, j int, junk *vva
 		final := vval.Canon(S, 0, t.B.FromMessage(0, mj)).String()
 		b.Line("C19", "refl "+S.ID+" 0 "+fmt.Sprint(len(ops))+" "+strings.Join(ops, " ; ")+" ; "+junk.String(), strings.Join(outs, " ; ")+" ; final "+final)
 	}
+}
+
+// parentsOf: the root descriptor and its directly nested / referenced message descriptors that have a list or map
+// field whose element type is md.
+func parentsOf(root, md protoreflect.MessageDescriptor) []protoreflect.MessageDescriptor {
+	seen := map[protoreflect.FullName]bool{}
+	var out []protoreflect.MessageDescriptor
+	var walk func(d protoreflect.MessageDescriptor, depth int)
+	walk = func(d protoreflect.MessageDescriptor, depth int) {
+		if d == nil || seen[d.FullName()] || depth > 3 {
+			return
+		}
+		seen[d.FullName()] = true
+		out = append(out, d)
+		for i := 0; i < d.Fields().Len(); i++ {
+			fd := d.Fields().Get(i)
+			if fd.IsMap() {
+				walk(fd.MapValue().Message(), depth+1)
+			} else {
+				walk(fd.Message(), depth+1)
+			}
+		}
+	}
+	walk(root, 0)
+	_ = md
+	return out
+}
+
+func zeroKey(kd protoreflect.FieldDescriptor) protoreflect.MapKey {
+	switch kd.Kind() {
+	case protoreflect.StringKind:
+		return protoreflect.ValueOfString("k").MapKey()
+	case protoreflect.BoolKind:
+		return protoreflect.ValueOfBool(true).MapKey()
+	case protoreflect.Int32Kind, protoreflect.Sint32Kind, protoreflect.Sfixed32Kind:
+		return protoreflect.ValueOfInt32(1).MapKey()
+	case protoreflect.Int64Kind, protoreflect.Sint64Kind, protoreflect.Sfixed64Kind:
+		return protoreflect.ValueOfInt64(1).MapKey()
+	case protoreflect.Uint32Kind, protoreflect.Fixed32Kind:
+		return protoreflect.ValueOfUint32(1).MapKey()
+	}
+	return protoreflect.ValueOfUint64(1).MapKey()
 }
